@@ -13,7 +13,7 @@ CONFIGS_THOROUGH = ["A", "R", "NOAPI"]
 TECHNIQUE = ('literal/field dispatch-table agreement across the sites that enumerate methods (built MIR), decision table of Node::search, must-pass-edge rule on '
              'Pattern::take_through (segment boundary), per-iteration guard of the compression loop, reachability of unsafe operations from the search with '
              'dominance-checked guards')
-LEVEL_TEXT = ('Decides clauses C01-a..f: at each site that maps methods to per-method trees (Router::handle, gen_openapi_doc, From<base::Router>, register!, merge!, '
+LEVEL_TEXT = ('Decides clauses C01-a..g: at each site that maps methods to per-method trees (Router::handle, gen_openapi_doc, From<base::Router>, register!, merge!, '
               'apply_to!) the tree used for a Method variant is the field of the same name (HEAD served by the GET tree, its body dropped and its headers kept), and '
               "all sites cover the same variants; Node::search returns the node's proc exactly on a hit and its catch otherwise, the catch being built from "
               'default_not_found (404 Not Found); every unsafe operation reachable from the search is dominated by its guard, and the fixed-size captured-parameter '
@@ -21,7 +21,9 @@ LEVEL_TEXT = ('Decides clauses C01-a..f: at each site that maps methods to per-m
               ' into search order (static before param) after the last step that changes the child list (single-child compression), so the order search relies on '
               "does not depend on registration order; while compressing single-child chains a node takes over its child's handler only under a test, made in the same"
               ' iteration, that it has none of its own; a static pattern answers a match only on paths that establish a segment boundary (nothing left, or the next '
-              'byte is `/`), so `/users` is not matched by `/users2`. Decides these clauses, not segment-matching semantics over all route sets and paths.')
+              'byte is `/`), so `/users` is not matched by `/users2`; a base node never gets a second param child: every append_child is preceded by a look-up that '
+              'found no matchable child (a param pattern being matched by any existing param child), and `children` grows nowhere else. Decides these clauses, not '
+              'segment-matching semantics over all route sets and paths.')
 
 METHODS = ["GET", "PUT", "POST", "PATCH", "DELETE", "OPTIONS"]
 
@@ -60,6 +62,9 @@ def run(ck, progs):
         ck.guard("C01-b DECISION miss", lambda: c01b(ck, prog))
         ck.guard("C01-c REACH search", lambda: c01c(ck, prog))
         ck.guard("C01-d ORDER child order", lambda: c01d(ck, prog))
+        ck.guard("C01-e GUARD handler kept", lambda: c01e(ck, prog, final_builder(prog)))
+        ck.guard("C01-f GUARD segment boundary", lambda: c01f(ck, prog))
+        ck.guard("C01-g INVARIANT one param child", lambda: c01g(ck, prog))
     ck.config = None
 
 
@@ -303,8 +308,6 @@ def c01d(ck, prog):
         # a.cmp(b).reverse(): first operand from the first closure argument
         c = [x for x in cf.calls() if x.name == "cmp"]
         ok = len(c) == 1 and "arg2" in decision.describe_deep(cf, c[0].args[0], 6) and "arg3" in decision.describe_deep(cf, c[0].args[1], 6)
-    c01e(ck, prog, f)
-    c01f(ck, prog)
     ck.ob(R, "comparator:statics-reverse-lexical", ok, cf.loc(None), "" if ok else "static siblings are ordered by `%s`, expected a.cmp(b).reverse() (so that `/users` is tried before `/user`)" % ss[:60], how="(Static(a), Static(b)) => a.cmp(b).reverse()")
 
 
@@ -386,3 +389,73 @@ def c01f(ck, prog):
               "`nothing left` or `next byte is /`): with routes `/users` and `/:page`, GET /users2 enters the `/users` node, finds no child for `2` and answers 404 instead of running the `/:page` handler"
               % "->bb".join(str(x) for x in p),
               how="every path to Some(remaining) takes an edge establishing `len == pattern.len()` or `bytes[pattern.len()] == b'/'`")
+
+
+def c01g(ck, prog):
+    """Search descends into the *first* param child only, so a node must never get a second one: a child is appended either
+    after a look-up that found no matchable child (a param pattern is matched by any existing param child), or by an
+    append_child that itself refuses/merges a second param child."""
+    R = "C01-g INVARIANT one param child"
+    ac = prog.one(r"^ohkami::router::base::Node::append_child$")
+    # does append_child itself guard its Param arm?
+    own = False
+    for c in ac.calls():
+        if c.name == "push" and re.search(r"^alloc::vec::Vec", c.callee or ""):
+            fs = guards.facts_at(ac, prog, c.bb)
+            is_param_arm = any(fa.kind == "variant" and fa.allowed == {"Param"} for fa in fs)
+            if is_param_arm and any(fa.kind == "boolcall" and fa.call.name in ("is_none", "any", "all", "is_some", "contains") for fa in fs):
+                own = True
+    sites = prog.callers().get(ac.key, [])
+    n = 0
+    for c in sites:
+        g = c.fn
+        n += 1
+        def none_of_lookup(fa, g=g):
+            if not (fa.kind == "variant" and fa.allowed == {"None"} and fa.steps and fa.steps[-1][0] == "call"):
+                return False
+            call = fa.steps[-1][1]
+            if call.name == "machable_child_mut":
+                return True
+            # `pattern.filter(is_param).and_then(|p| self.machable_child_mut(p))`: the look-up sits in the combinator's closure;
+            # a static child that skips it is still checked by append_child's own duplicate test
+            for a in call.args:
+                st = g.origin(a)
+                if st and st[-1][0] == "agg" and st[-1][1][1].get("k") == "closure":
+                    h = prog.fns.get(st[-1][1][1]["def"])
+                    if h is not None and h.calls_to(r"Node::machable_child_mut$"):
+                        return True
+            return False
+        looked = paths.has_fact(g, prog, c.bb, none_of_lookup) is not None
+        ok = own or looked
+        ck.ob(R, "append_child<-%s" % g.name, ok, g.loc(c.sp),
+              "" if ok else "%s appends a child without having looked for an existing matchable child, and append_child accepts a second `:param` child: the search only ever descends into the first one, so with "
+              "`\"/users/:id\".GET(..)` followed by `\"/users\".By(Ohkami::new(\"/:user/posts\".GET(..)))` GET /users/42/posts answers 404 (and 200 when the two are registered in the other order)" % g.key,
+              how="dominated by `machable_child_mut(pattern)` == None" if looked else "append_child guards its Param arm")
+    ck.floor(R, "append_child call sites", n, 3)
+    # the look-up treats every param child as matching a param pattern (whatever the parameter is called)
+    mc = prog.one(r"^ohkami::router::base::Node::machable_child_mut$")
+    cmpc = [c for c in mc.calls() if c.callee in prog.fns and "Pattern" in (c.callee or "")]
+    if len(cmpc) != 1:
+        raise AnchorLost("machable_child_mut does not compare patterns through one function of Pattern (%r): whether a param pattern matches any existing param child cannot be read" % [c.callee for c in mc.calls()][-3:])
+    m = prog.fns[cmpc[0].callee]
+    arms = {}
+    for bb, kind, pl in paths.ret_sites(m):
+        v = [tuple(fa.allowed)[0] for fa in guards.facts_at(m, prog, bb) if fa.kind == "variant" and fa.allowed and len(fa.allowed) == 1 and tuple(fa.allowed)[0] in ("Param", "Static")]
+        arms[v[0] if v else None] = (kind, pl.name if kind == "call" else None, [decision.describe_deep(m, a, 3) for a in pl.args] if kind == "call" else [])
+    pa = arms.get("Param")
+    ok = pa is not None and pa[0] == "call" and pa[1] == "is_param" and pa[2] == ["arg2"]
+    ck.ob(R, "lookup:param-matches-any-param", ok, m.loc(None), "" if ok else "for a param child the pattern comparison answers %r, expected `another.is_param()`: comparing parameter names lets `/users/:id` and `/users/:user/posts` create two param children" % (pa,),
+          how="Pattern::matches: Param(_) => another.is_param()")
+    sa = arms.get("Static")
+    ok = sa is not None and sa[0] == "call" and sa[1] == "eq" and all("to_static(" in x for x in sa[2])
+    ck.ob(R, "lookup:static-matches-equal-text", ok, m.loc(None), "" if ok else "for a static child the pattern comparison answers %r, expected equality of the static texts" % (sa,), how="Static(_) => self.to_static() == another.to_static()")
+    # direct growth of a base node's children outside append_child
+    direct = []
+    for g in prog.fns.values():
+        if g.crate != "ohkami" or "router::base" not in g.key or g is ac:
+            continue
+        for c in g.calls():
+            if c.name in ("push", "insert", "extend", "append") and re.search(r"^alloc::vec::Vec", c.callee or "") and c.args and re.search(r"\.children\)?$", decision.describe_deep(g, c.args[0], 3)):
+                direct.append((g, c))
+    ck.ob(R, "who:children-grow-only-in-append_child", not direct, direct[0][0].loc(direct[0][1].sp) if direct else ac.loc(None),
+          "" if not direct else "%s grows `children` directly, bypassing append_child" % direct[0][0].key, how="no Vec growth on `.children` of a base node outside append_child", nontrivial=False)
